@@ -30,7 +30,16 @@ pub enum Error {
     /// A disallowed control code was encountered.
     #[error("disallowed control code '{c}'", c = .0.escape_unicode())]
     DisallowedControlCode(char),
+    /// Brackets are nested too deeply.
+    #[error("brackets are nested too deeply (the limit is {MAX_NESTING_DEPTH})")]
+    NestingTooDeep,
 }
+
+/// The maximum nesting depth of `(`, `<` and `{`.
+///
+/// The parser recurses once per nested type or expression, so this bounds its
+/// stack usage (and that of everything that later walks the tree).
+pub const MAX_NESTING_DEPTH: usize = 128;
 
 impl From<()> for Error {
     fn from(_: ()) -> Self {
@@ -448,13 +457,13 @@ mod helpers {
 pub type LexerResult<T> = Result<T, Error>;
 
 /// Implements a WAC lexer.
-pub struct Lexer<'a>(SpannedIter<'a, Token>);
+pub struct Lexer<'a>(SpannedIter<'a, Token>, usize);
 
 impl<'a> Lexer<'a> {
     /// Creates a new lexer for the given source string.
     pub fn new(source: &'a str) -> Result<Self, (Error, SourceSpan)> {
         detect_invalid_input(source)?;
-        Ok(Self(Token::lexer(source).spanned()))
+        Ok(Self(Token::lexer(source).spanned(), 0))
     }
 
     /// Gets the source string of the given span.
@@ -527,7 +536,21 @@ impl Iterator for Lexer<'_> {
     type Item = (LexerResult<Token>, SourceSpan);
 
     fn next(&mut self) -> Option<Self::Item> {
-        self.0.next().map(|(r, s)| (r, to_source_span(s)))
+        let (mut result, span) = self.0.next()?;
+        match result {
+            Ok(Token::OpenParen | Token::OpenAngle | Token::OpenBrace) => {
+                self.1 += 1;
+                if self.1 > MAX_NESTING_DEPTH {
+                    result = Err(Error::NestingTooDeep);
+                }
+            }
+            Ok(Token::CloseParen | Token::CloseAngle | Token::CloseBrace) => {
+                self.1 = self.1.saturating_sub(1);
+            }
+            _ => {}
+        }
+
+        Some((result, to_source_span(span)))
     }
 }
 
